@@ -94,9 +94,42 @@ def instances(tier: str) -> list[dict]:
             out.extend(groups[k][:per])
         rest = [i for k in sorted(groups, key=str) for i in groups[k][per:]]
         out.extend(rest[: max(0, 420 - len(out))])
+    # the same LayerRule OBJECT applied first to another code base (the same names, one module of a multi-module regex
+    # layer missing) and then judged on the symbolic one: the verdict must follow the second code base's own modules
+    used = []
+    for i in out:
+        sp = i["spec"]
+        multi = [l for l in sp["layers"] if l[1] == "regex" and "|" in l[2][0]]
+        if multi:
+            used.append(dict(i, used=True))
+    rnd.shuffle(used)
+    out.extend(used[: (40 if tier == "quick" else 400)])
     for i in out:
         i["cap"] = CAPS[tier]
     return out
+
+
+def first_code_base(spec: LayerSpec, nodes):
+    """The universe without the last module (and its descendants) of the first multi-module regex layer."""
+    from vf.universes import is_anc_or_self
+
+    for name, kind, payload in spec.layers:
+        if kind == "regex" and "|" in payload[0]:
+            members = [n for n in nodes if re.match(payload[0], n)]
+            drop = sorted(members)[-1]
+            return [n for n in nodes if not is_anc_or_self(drop, n)]
+    return list(nodes)
+
+
+def used_rule(spec: LayerSpec, nodes):
+    rule = build_layer_rule(spec)
+    first = first_code_base(spec, nodes)
+    kept = [(a, b) for a in first for b in first if a != b and not related(a, b)][:2]
+    try:
+        rule.assert_applies(real_architecture(first, kept))
+    except (AssertionError, Exception):  # noqa: BLE001 - only the side effects of a first application matter
+        pass
+    return rule
 
 
 def concrete_outcome(nodes, spec: LayerSpec, edges):
@@ -107,9 +140,9 @@ def _with_records(o):
     return ("FAIL", layer_records_of(o[1])) if o[0] == "FAIL" else o
 
 
-def symbolic_outcome(spec, ev):
+def symbolic_outcome(spec, ev, rule=None):
     try:
-        rule = build_layer_rule(spec)
+        rule = rule or build_layer_rule(spec)
     except Exception as e:  # noqa: BLE001
         return ("ERROR", type(e).__name__)
     return _with_records(evaluate(rule, ev, with_message=True))
@@ -122,12 +155,13 @@ def known_class(spec: LayerSpec, nodes) -> str | None:
 def work(inst: dict) -> dict:
     spec = LayerSpec.from_json(inst["spec"])
     nodes = concrete(inst["tree"], inst["naming"])
-    label = f"{inst['tree']}/{inst['naming']}: {spec.label()}"
+    label = f"{inst['tree']}/{inst['naming']}: {spec.label()}" + (" [rule object used on another code base first]" if inst.get("used") else "")
     arch = SymArch(nodes)
     before = solver().stats()
+    shared = used_rule(spec, nodes) if inst.get("used") else None
 
     def fn():
-        return symbolic_outcome(spec, arch.ev)
+        return symbolic_outcome(spec, arch.ev, shared)
 
     summ, funcs, over = explore_fn(fn, inst["cap"])
     res = {"label": label, "functions": funcs, "variables_total": len(arch.pairs)}
@@ -148,14 +182,14 @@ def work(inst: dict) -> dict:
     diffs = [summ.formula(lambda o, r=r: o[0] == "FAIL" and r in o[1], arch.pool) != z3.And(code_fail, must.get(r, z3.BoolVal(False))) for r in sorted(observed | set(must), key=repr)]
     st, model = solver().check(z3.Or(code_err, code_pass != oracle, *diffs))
     res.update({"paths": summ.paths, "forks": summ.forks, "dont_care_vars": len(arch.pairs) - len(summ.keys_in_tree()), "explore_s": summ.explore_s})
-    n, errs = validate_samples(summ, arch, lambda edges: _conc(nodes, spec, edges))
+    n, errs = validate_samples(summ, arch, lambda edges: _conc(nodes, spec, edges, inst.get("used", False)))
     res["replays"] = n
     res["errors"] = errs
     if st == "unknown":
         res["errors"].append(f"solver unknown on {label}")
     elif st == "sat":
         edges = arch.model_edges(model)
-        payload = {"kind": "layer-rule", "nodes": nodes, "spec": spec.as_json(), "edges": [list(e) for e in edges], "label": label}
+        payload = {"kind": "layer-rule", "nodes": nodes, "spec": spec.as_json(), "edges": [list(e) for e in edges], "label": label, "used": bool(inst.get("used"))}
         ok, text, detail = replay_detail(payload)
         res["replays"] += 1
         if ok:
@@ -171,9 +205,9 @@ def work(inst: dict) -> dict:
     return res
 
 
-def _conc(nodes, spec, edges):
+def _conc(nodes, spec, edges, used=False):
     try:
-        rule = build_layer_rule(spec)
+        rule = used_rule(spec, nodes) if used else build_layer_rule(spec)
     except Exception as e:  # noqa: BLE001
         return ("ERROR", type(e).__name__)
     return _with_records(evaluate(rule, real_architecture(nodes, edges), with_message=True))
@@ -183,10 +217,10 @@ def replay_detail(payload: dict):
     spec = LayerSpec.from_json(payload["spec"])
     nodes = payload["nodes"]
     edges = [tuple(e) for e in payload["edges"]]
-    got = _conc(nodes, spec, edges)
+    got = _conc(nodes, spec, edges, payload.get("used", False))
     exp = "PASS" if verdict(spec, nodes, PyLogic(edges)) else "FAIL"
     ok = got[0] == exp
-    text = f"layer rule {spec.label()} on modules {nodes} (layer members {layer_members(spec, nodes)}) with imports {edges}: real code -> {got[0]}, documented semantics -> {exp}"
+    text = (f"the LayerRule object was first applied to the code base {first_code_base(spec, nodes)}; then: " if payload.get("used") else "") + f"layer rule {spec.label()} on modules {nodes} (layer members {layer_members(spec, nodes)}) with imports {edges}: real code -> {got[0]}, documented semantics -> {exp}"
     if ok and got[0] == "FAIL":
         must = expected_layer_records(spec, nodes, PyLogic(edges))
         want = {r for r, c in must.items() if c}
@@ -205,11 +239,12 @@ def run(tier: str, only: str | None = None) -> int:
     rep = runner.Report(PROP, tier)
     items = instances(tier)
     if only:
-        items = [i for i in items if only in f"{i['tree']}/{i['naming']}: {LayerSpec.from_json(i['spec']).label()}"]
+        items = [i for i in items if only in f"{i['tree']}/{i['naming']}: {LayerSpec.from_json(i['spec']).label()}" + (" [used]" if i.get("used") else "")]
     rep.bounds = {
         "trees": sorted({i["tree"] for i in items}),
         "layers": "2-4 layers over pairwise-unrelated modules, some modules in no layer; all-named, all-regex and mixed definitions; layers not mentioned by the rule",
         "rules": "12 access shapes + 2 any-layer aliases, 1-2 object layers",
+        "used_rule_objects": f"{sum(1 for i in items if i.get('used'))} instances whose LayerRule object was applied to another code base first (one module of a multi-module regex layer missing there)",
         "path_cap_per_instance": CAPS[tier],
     }
     rep.assumptions = ["SymDiGraph stub", "regex layers are anchored alternations of the listed module names"]
